@@ -604,15 +604,14 @@ macro_rules! wrap_impl_uint {
         $(
             impl Wrap for $T {
                 // https://stackoverflow.com/a/707426
-                fn wrapped_between(mut self, lower: Self, upper: Self) -> Self {
+                fn wrapped_between(self, lower: Self, upper: Self) -> Self {
                     assert!(lower < upper);
                     assert!(lower >= Self::zero());
                     assert!(upper > Self::zero());
                     let range_size = upper - lower /*+ Self::one()*/;
-                    if self < lower {
-                        self += range_size * ((lower-self)/range_size + Self::one());
-                    }
-                    lower + (self - lower) % range_size
+                    // (self - lower) modulo range_size, from the two residues: no intermediate can leave [0, upper)
+                    let (a, b) = (self % range_size, lower % range_size);
+                    lower + if a >= b { a - b } else { range_size - (b - a) }
                 }
                 fn wrapped(self, upper: Self) -> Self {
                     assert!(upper > Self::zero());
@@ -620,11 +619,13 @@ macro_rules! wrap_impl_uint {
                 }
                 fn pingpong(self, upper: Self) -> Self {
                     assert!(upper > Self::zero());
-                    let r = self % (upper+upper);
-                    if r < upper {
+                    // Triangle wave of period 2*upper, without ever forming 2*upper (which may not be representable)
+                    let two = Self::one() + Self::one();
+                    let r = self % upper;
+                    if (self / upper) % two == Self::zero() {
                         r
                     } else {
-                        upper+upper-r
+                        upper - r
                     }
                 }
             }
@@ -636,15 +637,19 @@ macro_rules! wrap_impl_sint {
         $(
             impl Wrap for $T {
                 // https://stackoverflow.com/a/707426
-                fn wrapped_between(mut self, lower: Self, upper: Self) -> Self {
+                fn wrapped_between(self, lower: Self, upper: Self) -> Self {
                     assert!(lower < upper);
                     assert!(lower >= Self::zero());
                     assert!(upper > Self::zero());
                     let range_size = upper - lower /*+ Self::one()*/;
-                    if self < lower {
-                        self += range_size * ((lower-self)/range_size + Self::one());
-                    }
-                    lower + (self - lower) % range_size
+                    // Non-negative residue modulo range_size; `r + range_size` is below range_size, so it cannot overflow.
+                    let residue = |x: Self| {
+                        let r = x % range_size;
+                        if r < Self::zero() { r + range_size } else { r }
+                    };
+                    // (self - lower) modulo range_size, from the two residues: no intermediate can leave (-upper, upper)
+                    let (a, b) = (residue(self), residue(lower));
+                    lower + if a >= b { a - b } else { range_size - (b - a) }
                 }
                 fn wrapped(self, upper: Self) -> Self {
                     assert!(upper > Self::zero());
@@ -652,11 +657,16 @@ macro_rules! wrap_impl_sint {
                 }
                 fn pingpong(self, upper: Self) -> Self {
                     assert!(upper > Self::zero());
-                    let r = self.wrapped(upper+upper);
-                    if r <= upper {
-                        r
+                    // Triangle wave of period 2*upper, without ever forming 2*upper (which may not be representable).
+                    // floor(self / upper) is the truncated quotient, minus one when the remainder is negative: only its parity matters.
+                    let two = Self::one() + Self::one();
+                    let (q, r) = (self / upper, self % upper);
+                    let negative = r < Self::zero();
+                    let r = if negative { r + upper } else { r };
+                    if (q % two != Self::zero()) != negative {
+                        upper - r
                     } else {
-                        upper+upper-r
+                        r
                     }
                 }
             }
